@@ -296,6 +296,21 @@ def corruptions(wire):
                             o.fn = bny.UserFnCall(); o.fn.fn_id = '$eq'; o.fn.args = []
                     yield 'option-3-branches', (i, j, a, b), mut(f3)
 
+                    def ftf(m):                      # Tag + UserFn, no Value
+                        o = opt(m)
+                        o.value = None
+                        o.tag = o.tag if o.tag is not None else 1
+                        if o.fn is None:
+                            o.fn = bny.UserFnCall(); o.fn.fn_id = '$eq'; o.fn.args = []
+                    yield 'option-tag+fn', (i, j, a, b), mut(ftf)
+
+                    def fev(m):                      # an EMPTY Value element next to a Tag or UserFn
+                        o = opt(m)
+                        o.value = b''
+                        if o.tag is None and o.fn is None:
+                            o.tag = 1
+                    yield 'option-emptyvalue+other', (i, j, a, b), mut(fev)
+
 
 # ------------------------------------------------------------------ run
 
